@@ -503,13 +503,14 @@ theorem sim_sdReturnOk (s s' : St) (c : Scan) (dropped : Nat) (hC : InvC s) (hD 
   · rename_i hg
     simp at hs; subst hs
     have hw := hC.shutExited hg.1
+    have hdone : c.expShutdownDone = true := h9.mpr hg.1
     have hin : c.inExport = false := by rw [h2, (hC.exitedClean hw).2.1]; rfl
     have hdl := delivered_of_covered s.blocking s.sdPre s.exported s.droppedIds dropped (hF.exitedOK hw) hd hD.dropNB
     rw [← h1, ← h5] at hdl
     obtain ⟨pre, hpre⟩ := hown
     simp only [emitRaw, List.foldl_cons, List.foldl_nil, scanStep, Bool.not_true, Bool.false_eq_true, if_false, hin,
-      hdl, if_true, hpre]
-    split <;> (refine ⟨h1, ?_, h3, h4, h5, ?_, h7, h8, h9, h10, h11, h12⟩ <;> simp_all)
+      hdl, if_true, hpre, hdone, Bool.and_false]
+    split <;> (refine ⟨h1, ?_, h3, h4, h5, ?_, h7, h8, ?_, h10, h11, h12⟩ <;> simp_all)
   · simp at hs
 
 /-- a further Shutdown call: the scanner keeps the `pre` set of the first call -/
@@ -539,13 +540,14 @@ theorem sim_sdReturnLate (s s' : St) (cid : Nat) (c : Scan) (dropped : Nat) (hC 
     have hgo : s.sdRetOk = true := by rcases hg.1 with h | h; exact h; rw [hT] at h; cases h
     simp only [Option.some.injEq] at hs; subst hs
     have hw := hC.shutExited (hC.retSd hgo)
+    have hdone : c.expShutdownDone = true := h9.mpr (hC.retSd hgo)
     have hin : c.inExport = false := by rw [h2, (hC.exitedClean hw).2.1]; rfl
     have hdl := delivered_of_covered s.blocking s.sdPre s.exported s.droppedIds dropped (hF.exitedOK hw) hd hD.dropNB
     rw [← h1, ← h5] at hdl
     obtain ⟨pre, hpre⟩ := hown
     simp only [emitRaw, List.foldl_cons, List.foldl_nil, scanStep, Bool.not_true, Bool.false_eq_true, if_false, hin,
-      hdl, if_true, hpre]
-    split <;> (refine ⟨h1, ?_, h3, h4, h5, ?_, h7, h8, h9, h10, h11, h12⟩ <;> simp_all)
+      hdl, if_true, hpre, hdone, Bool.and_false]
+    split <;> (refine ⟨h1, ?_, h3, h4, h5, ?_, h7, h8, ?_, h10, h11, h12⟩ <;> simp_all)
   · simp at hs
 
 theorem scanStep_sdCalled_pres (bl : Bool) (d : Nat) (c : Scan) :
